@@ -181,7 +181,7 @@ def _validate(ctx, path, tag, selftest=False):
 def _merge_stats(res):
     tot = {}
     for _, st in res:
-        for k, v in st.items():
+        for k, v in (st or {}).items():
             if isinstance(v, int):
                 tot[k] = max(tot.get(k, 0), v) if k == "max_schedule_len" else tot.get(k, 0) + v
             elif isinstance(v, dict):
@@ -195,16 +195,26 @@ def _merge_stats(res):
     return tot
 
 
-def _drive(ctx, cmd, sched, shards, nrand, rlen, tag, timeout):
+def _harness(ctx, args, timeout, tmp, crashes):
+    """run the harness; a process that died (the store calls log.Fatal on some paths) is remembered in
+    `crashes` - its trace up to that point is still judged, and the death itself makes the check
+    undecided unless the trace already shows a violation"""
+    p = ctx.run_harness(args, timeout=timeout, env={"TMPDIR": tmp}, check=False)
+    if p.returncode != 0:
+        crashes.append("%s rc=%d: %s" % (args[0], p.returncode, p.stderr[-600:]))
+        return None
+    return json.loads(p.stdout.strip().splitlines()[-1])
+
+
+def _drive(ctx, cmd, sched, shards, nrand, rlen, tag, timeout, crashes):
     """run one harness command over the schedule file in `shards` processes; returns [(trace, stats)]"""
     tmp = _tmp_root(ctx)
     try:
         def shard(i):
             out = os.path.join(ctx.scratch, "%s.trace.%d.ndjson" % (tag, i))
-            p = ctx.run_harness([cmd, "-in", sched, "-shard", str(i), "-of", str(shards), "-out", out,
-                                 "-random", str(nrand // shards), "-len", str(rlen), "-np", "4", "-readers", "3"],
-                                timeout=timeout, env={"TMPDIR": tmp})
-            return out, json.loads(p.stdout.strip().splitlines()[-1])
+            return out, _harness(ctx, [cmd, "-in", sched, "-shard", str(i), "-of", str(shards), "-out", out,
+                                       "-random", str(nrand // shards), "-len", str(rlen), "-np", "4", "-readers", "3"],
+                                 timeout, tmp, crashes)
         with cf.ThreadPoolExecutor(max_workers=shards) as ex:
             return list(ex.map(shard, range(shards)))
     finally:
@@ -225,18 +235,20 @@ def replay(ctx, wit, cases):
     nst = ctx.pick(10, 300)
     ssched = os.path.join(ctx.scratch, "ckpt.store.sched.ndjson")
     vlib.write_nd(ssched, witl + [{"id": "spec-%d" % i, "ops": cases[i]} for i in sorted(rnd.sample(range(len(cases)), min(nst, len(cases))))])
+    crashes = []
     with cf.ThreadPoolExecutor(max_workers=2) as ex:
-        fdb = ex.submit(_drive, ctx, "ckpt-replay", sched, ctx.pick(3, 5), ctx.pick(150, 4000), 24, "ckpt", ctx.pick(900, 3000))
-        fst = ex.submit(_drive, ctx, "ckpt-store", ssched, ctx.pick(3, 4), ctx.pick(9, 300), 12, "ckpt.store", ctx.pick(900, 3000))
+        fdb = ex.submit(_drive, ctx, "ckpt-replay", sched, ctx.pick(3, 5), ctx.pick(150, 4000), 24, "ckpt", ctx.pick(900, 3000), crashes)
+        fst = ex.submit(_drive, ctx, "ckpt-store", ssched, ctx.pick(3, 4), ctx.pick(9, 300), 12, "ckpt.store", ctx.pick(900, 3000), crashes)
         res, sres = fdb.result(), fst.result()
     tot, stot = _merge_stats(res), _merge_stats(sres)
     ctx.cov["driver"] = tot
     ctx.cov["driver_store_layer"] = stot
-    for o in ("truncated", "busy", "allmoved"):
-        if not tot.get("outcomes", {}).get(o) or not stot.get("outcomes", {}).get(o):
-            raise vlib.Undecided("checkpoint outcome %r never occurred in the replay (vacuous run)" % o)
-    if not tot.get("wal_restarts") or not stot.get("wal_restarts"):       # observed on the WAL file itself, not through the code under test
-        raise vlib.Undecided("SQLite never restarted the WAL in the replay (vacuous run)")
+    if not crashes:
+        for o in ("truncated", "busy", "allmoved"):
+            if not tot.get("outcomes", {}).get(o) or not stot.get("outcomes", {}).get(o):
+                raise vlib.Undecided("checkpoint outcome %r never occurred in the replay (vacuous run)" % o)
+        if not tot.get("wal_restarts") or not stot.get("wal_restarts"):       # observed on the WAL file itself, not through the code under test
+            raise vlib.Undecided("SQLite never restarted the WAL in the replay (vacuous run)")
 
     # trace validation: the runs of all traces are dealt into `groups` files of equal size (one JVM each, started together)
     groups = ctx.pick(1, 4)
@@ -264,7 +276,7 @@ def replay(ctx, wit, cases):
     for r, rows, fl in vals:
         ctx.add("trace_events", r["n"])
         flagged.update(fl)
-    ctx.add("traces_validated_against_impl", tot["runs"] + stot["runs"])
+    ctx.add("traces_validated_against_impl", tot.get("runs", 0) + stot.get("runs", 0))
     rr = _runs(vals[0][1])
     for first, run in rr[:1] + rr[len(rr) // 2:len(rr) // 2 + 1]:
         ctx.sample([{k: v for k, v in x.items() if k != "ops"} for x in run[:14]])
@@ -276,6 +288,8 @@ def replay(ctx, wit, cases):
                              % (rid, e["layer"], sorted(e["names"]), json.dumps(e["rows"][0].get("ops"))))
     if flagged:
         confirm(ctx, flagged)
+    if crashes and not ctx.violations:
+        raise vlib.Undecided("the harness process died and the trace up to that point shows no violation: %s" % crashes[:2])
 
 
 def confirm(ctx, flagged):
@@ -294,12 +308,17 @@ def confirm(ctx, flagged):
         lids = [rid for rid in ids if flagged[rid]["layer"] == layer]
         if not lids:
             continue
-        sched = os.path.join(ctx.scratch, "ckpt.confirm.%s.ndjson" % layer)
-        vlib.write_nd(sched, [{"id": rid, "ops": flagged[rid]["rows"][0]["ops"]} for rid in lids])
         out = os.path.join(ctx.scratch, "ckpt.confirm.%s.trace.ndjson" % layer)
+        # the store layer one process per run: the store may log.Fatal in the middle of one
+        batches = [lids] if layer == "db" else [[rid] for rid in lids]
         tmp = _tmp_root(ctx)
         try:
-            ctx.run_harness([cmd, "-in", sched, "-out", out, "-np", "4"], timeout=1800, env={"TMPDIR": tmp})
+            with open(out, "w") as fo:
+                for bi, batch in enumerate(batches):
+                    sched = os.path.join(ctx.scratch, "ckpt.confirm.%s.%d.ndjson" % (layer, bi))
+                    vlib.write_nd(sched, [{"id": rid, "ops": flagged[rid]["rows"][0]["ops"]} for rid in batch])
+                    _harness(ctx, [cmd, "-in", sched, "-out", out + ".part", "-np", "4"], 1800, tmp, [])
+                    fo.write(open(out + ".part").read())
         finally:
             if tmp.startswith("/dev/shm"):
                 shutil.rmtree(tmp, ignore_errors=True)
